@@ -6,7 +6,7 @@ PID = "C04"
 LEVEL = "model_checking"
 RULE = 'a case is one offered transaction or one forged block; distinct = distinct (regime, template/nonce mode, class, kind)'
 MANIFEST = dict(category=LEVEL, design_ref='DESIGN.md §5 C04',
-    text="Ledger.tla's OnlyAuthorised / NonceSequential (a transaction takes effect only when signed by the sender's key, bound to this chain and carrying exactly nonce+1; no transaction twice) are checked exhaustively by TLC including replays. Really signed adversarial transactions (wrong key, altered signature, other chain id, gap/duplicate nonce, replay of an executed transaction) are offered to the real pool and to the real executor, and blocks carrying them are built by the production path itself and delivered to a fresh validator: none may be executed; executed nonces per account must be sequential within and across blocks; reorganisations that return transactions to the real pool, the same transaction on both branches and production from the pool after a branch switch are covered by NodePool.tla (chain + pool + local production composed), whose TLC behaviours are replayed on a node with the real pool: executed nonces stay sequential and no hash is executed twice along the main chain including locally produced blocks.",
+    text="Ledger.tla's OnlyAuthorised / NonceSequential (a transaction takes effect only when signed by the sender's key, bound to this chain and carrying exactly nonce+1; no transaction twice) are checked exhaustively by TLC including replays. Really signed adversarial transactions (wrong key, altered signature, other chain id, gap/duplicate nonce, replay of an executed transaction) are offered to the real pool and to the real executor, and blocks carrying them are built by the production path itself and delivered to a fresh validator: none may be executed; executed nonces per account must be sequential within and across blocks; a transaction whose sender ACCOUNT is a name takes effect only when signed by the owner registered in the state the block starts from and is executed for the address the name stood for in that state (NameSenderNeedsOwnerKey; name handed over and used in one block, previous owner, new holder and strangers signing, nonces of either party; crafted blocks with these at the validator; a name-sender transaction admitted to the node's pool before a handover and delivered in a block after it); reorganisations that return transactions to the real pool, the same transaction on both branches and production from the pool after a branch switch are covered by NodePool.tla (chain + pool + local production composed), whose TLC behaviours are replayed on a node with the real pool: executed nonces stay sequential and no hash is executed twice along the main chain including locally produced blocks.",
     note="VM stub for contract execution; in-memory verifdb store; stub consensus; fees are read from receipts, never predicted",
     technique='TLA+/TLC authorisation model + really signed forgeries through pool, executor and validator; NodePool.tla behaviours replayed on a node with the real pool')
 
